@@ -130,16 +130,27 @@ real_t WRAP(PivotGrowth)(int_t ncols, SuperMatrix *A, int_t *perm_c, SuperMatrix
     if (!quiet) fprintf(out, "#R ev pivotgrowth %ld %a\n", (long) ncols, (double) r);
     return r;
 }
+static int fe_open;
+static void fs_log(const char *name, long a, SuperMatrix *B)
+{   /* the solve ?gsrfs performs to answer the estimator (all precisions): "fs_in trans v.." / "fs_out info v.." */
+    DNformat *Bs = B->Store; long i;
+    if (quiet || !ctx_gsrfs || !fe_open || B->ncol != 1) return;
+    fprintf(out, "#R ev %s %ld", name, a);
+    for (i = 0; i < (long) B->nrow * NV; ++i) fprintf(out, " %a", (double) ((real_t *) Bs->nzval)[i]);
+    fprintf(out, "\n");
+}
 void WRAP(gstrs)(trans_t trans, SuperMatrix *L, SuperMatrix *U, int_t *perm_r, int_t *perm_c, SuperMatrix *B,
                  Gstat_t *Gstat, int_t *info)
 {
     DNformat *Bs = B->Store;
     int lg = (!quiet && logvec && B->ncol == 1);
+    fs_log("fs_in", (long) trans, B);
     if (lg) { fprintf(out, "#R ev gstrs_in %d %d", (int) trans, ctx_gsrfs);
               for (long i = 0; i < (long) B->nrow * NV; ++i) fprintf(out, " %a", (double) ((real_t *) Bs->nzval)[i]);
               fprintf(out, "\n"); }
     else if (!quiet) fprintf(out, "#R ev gstrs_call %d %d %ld\n", (int) trans, ctx_gsrfs, (long) B->ncol);
     REAL(gstrs)(trans, L, U, perm_r, perm_c, B, Gstat, info);
+    fs_log("fs_out", (long) *info, B);
     if (lg) { fprintf(out, "#R ev gstrs_out %ld", (long) *info);
               for (long i = 0; i < (long) B->nrow * NV; ++i) fprintf(out, " %a", (double) ((real_t *) Bs->nzval)[i]);
               fprintf(out, "\n"); }
@@ -177,10 +188,15 @@ void WRAP(laqgs)(SuperMatrix *A, real_t *r, real_t *c, real_t rowcnd, real_t col
 
 /* every vector exchanged with the estimator INSIDE ?gscon (all precisions): "ge_in kase x.." = what ?gscon hands to ?lacon_ (its reply to
    the previous request), "ge_out kase x.." = what ?lacon_ asks for next */
+/* fe_open (declared above): inside ?gsrfs the estimator has asked for a product that has not been answered yet */
 static void ge_log(const char *name, long kase, const val_t *x, long n)
 {
     long i;
-    if (quiet || !ctx_gscon) return;
+    if (quiet || !(ctx_gscon || ctx_gsrfs)) return;
+    if (ctx_gsrfs && !ctx_gscon) {           /* same exchange inside ?gsrfs (forward error estimate): fe_in / fe_out */
+        fe_open = (name[3] == 'o' && kase != 0);
+        fprintf(out, "#R ev f%s %ld", name + 1, kase);
+    } else
     fprintf(out, "#R ev %s %ld", name, kase);
     for (i = 0; i < n * NV; ++i) fprintf(out, " %a", (double) ((const real_t *) x)[i]);
     fprintf(out, "\n");
